@@ -1,5 +1,296 @@
+/-
+  C19 — the GraphML reader never panics: any input yields Ok(valid graph) or Err.
+
+  The model (`Xml.readLoop` / `Xml.readEvents`, Model/GraphML.lean) is the reader loop of
+  src/readwrite/graphml.rs over quick-xml's event stream, with every `?` / error return explicit.
+  It is a total function by structural recursion on the event list (termination), its outcome is
+  never a panic, and an `Ok` result is built from exactly the node and edge elements the document
+  declares, in document order, with the declared directedness.
+-/
 import GraphrsModel.ObsXml
 namespace Graphrs
-/-- placeholder while the framework is brought up: replaced by the property theorems -/
-theorem C19_readLoop_nil (st : Xml.RState) : (Xml.readLoop st []).isOk = true := rfl
+open Xml
+
+/-- the events up to (not including) the first `Eof` -/
+def untilEof : List Event → List Event
+  | [] => []
+  | .eof :: _ => []
+  | ev :: rest => ev :: untilEof rest
+
+/-! ### helper lemmas -/
+
+theorem Store.newFrom_not_panic (sp : Specs) (ns : List Node) (es : List Edge) :
+    (Store.newFrom sp ns es).isPanic = false := by
+  unfold Store.newFrom
+  split <;> rfl
+
+/-- the step function of the `docNodes` fold -/
+private def fN : Option (List Nat) → Event → Option (List Nat) := fun acc ev => do
+    let l ← acc
+    match ev with
+    | .start n a | .empty n a => if n == sNode then (do let a ← a; let i ← attrGet a sId; pure (l ++ [i])) else pure l
+    | _ => pure l
+
+/-- the step function of the `docEdges` fold -/
+private def fE : Option (List (Nat × Nat)) → Event → Option (List (Nat × Nat)) := fun acc ev => do
+    let l ← acc
+    match ev with
+    | .start n a | .empty n a =>
+      if n == sEdge then (do let a ← a; let u ← attrGet a sSource; let v ← attrGet a sTarget; pure (l ++ [(u, v)])) else pure l
+    | _ => pure l
+
+/-- the step function of the `docDirected` fold -/
+private def fD : Bool → Event → Bool := fun d ev =>
+    match ev with
+    | .start n (some a) | .empty n (some a) =>
+      if n == sGraph then (if attrGet a sEdgeDefault == some sUndirected then false
+                           else if attrGet a sEdgeDefault == some sDirected then true else d) else d
+    | _ => d
+
+private theorem docNodes_eq (evs : List Event) : docNodes evs = evs.foldl fN (some []) := rfl
+private theorem docEdges_eq (evs : List Event) : docEdges evs = evs.foldl fE (some []) := rfl
+private theorem docDirected_eq (evs : List Event) : docDirected evs = evs.foldl fD true := rfl
+
+theorem Xml.setLastWeight_append (l : List Edge) (e : Edge) (w : W) :
+    setLastWeight (l ++ [e]) w = l ++ [{ e with w := w }] := by
+  simp [setLastWeight]
+
+theorem Xml.setLastWeight_ends (l : List Edge) (w : W) :
+    (setLastWeight l w).map (fun e => (e.u, e.v)) = l.map (fun e => (e.u, e.v)) := by
+  rcases List.eq_nil_or_concat l with h | ⟨l', e, h⟩
+  · subst h; rfl
+  · subst h
+    rw [List.concat_eq_append, setLastWeight_append]
+    simp
+
+private abbrev ends (l : List Edge) : List (Nat × Nat) := l.map fun e => (e.u, e.v)
+private abbrev names (l : List Node) : List Nat := l.map (·.name)
+
+/-- `Eof` is the only event on which the loop breaks -/
+private theorem readStep_none (st0 : RState) (ev : Event) (h : readStep st0 ev = .ok none) : ev = .eof := by
+  unfold readStep at h
+  cases ev <;> simp only [] at h
+  all_goals (try rfl)
+  all_goals (exfalso; revert h; repeat' split)
+  all_goals (first | simp | skip)
+
+private theorem addNode_ok (st st' : RState) (attrs : Attrs) (h : addNode st attrs = .ok st') :
+    ∃ a i, attrs = some a ∧ attrGet a sId = some i ∧ st' = { st with nodes := st.nodes ++ [⟨i, none⟩] } := by
+  cases attrs with
+  | none => cases h
+  | some a =>
+    simp only [addNode] at h
+    split at h
+    · cases h
+    · next i hi => exact ⟨a, i, rfl, hi, by cases h; rfl⟩
+
+private theorem addEdge_ok (st st' : RState) (attrs : Attrs) (h : addEdge st attrs = .ok st') :
+    ∃ a u v, attrs = some a ∧ attrGet a sSource = some u ∧ attrGet a sTarget = some v ∧
+      st' = { st with edges := st.edges ++ [⟨u, v, none, none⟩] } := by
+  cases attrs with
+  | none => cases h
+  | some a =>
+    simp only [addEdge] at h
+    split at h
+    · next u v hu hv => exact ⟨a, u, v, rfl, hu, hv, by cases h; rfl⟩
+    · cases h
+
+private theorem keyElem_ok (st st' : RState) (attrs : Attrs) (h : keyElem st attrs = .ok st') :
+    ∃ a k, attrs = some a ∧ st' = { st with weightKey := k } := by
+  unfold keyElem at h
+  split at h
+  · cases h
+  · next a =>
+    split at h
+    · split at h
+      · next i _ => exact ⟨a, i, rfl, by cases h; rfl⟩
+      · exact ⟨a, st.weightKey, rfl, by cases h; rfl⟩
+    · exact ⟨a, st.weightKey, rfl, by cases h; rfl⟩
+
+private theorem graphElem_ok (st st' : RState) (attrs : Attrs) (h : graphElem st attrs = .ok st') :
+    ∃ a, attrs = some a ∧ st' = { st with directed := fD st.directed (.start sGraph (some a)) } := by
+  unfold graphElem at h
+  split at h
+  · cases h
+  · next a =>
+    split at h
+    · cases h
+    · next v hv =>
+      refine ⟨a, rfl, ?_⟩
+      by_cases h1 : v = sDirected
+      · subst h1; simp [sDirected] at h ⊢; simp [fD, hv, sDirected, sUndirected, ← h]
+      · by_cases h2 : v = sUndirected
+        · subst h2; simp [sDirected, sUndirected] at h ⊢; simp [fD, hv, sUndirected, ← h]
+        · simp [h1, h2] at h
+
+private theorem cont_some (r : Except ErrKind RState) (st' : RState)
+    (h : (match r with | .ok s => (Except.ok (some s) : Except ErrKind (Option RState)) | .error e => .error e) = .ok (some st')) :
+    r = .ok st' := by
+  cases r <;> simp_all
+
+/-- one iteration of the reader loop adds exactly what the event declares -/
+private theorem readStep_some (st0 st' : RState) (ev : Event) (h : readStep st0 ev = .ok (some st')) :
+    ev ≠ .eof ∧
+    fN (some (names st0.nodes)) ev = some (names st'.nodes) ∧
+    fE (some (ends st0.edges)) ev = some (ends st'.edges) ∧
+    st'.directed = fD st0.directed ev := by
+  unfold readStep at h
+  cases ev with
+  | eof => simp at h
+  | error => simp at h
+  | other => simp at h; subst h; simp [fN, fE, fD]
+  | endTag n => simp at h; subst h; simp [fN, fE, fD]
+  | text v =>
+    simp only [] at h
+    refine ⟨by simp, ?_⟩
+    split at h
+    · split at h
+      · split at h
+        · cases h
+        · simp at h; subst h; simp [fN, fE, fD, setLastWeight_ends]
+      · simp at h; subst h; simp [fN, fE, fD]
+    · simp at h; subst h; simp [fN, fE, fD]
+  | empty name attrs =>
+    simp only [] at h
+    refine ⟨by simp, ?_⟩
+    split at h
+    · next hn =>
+      obtain ⟨a, i, rfl, hi, rfl⟩ := addNode_ok _ _ _ (cont_some _ _ h)
+      simp at hn; subst hn
+      simp [fN, fE, fD, hi, sNode, sEdge, sGraph]
+    · next hn =>
+      split at h
+      · next he =>
+        obtain ⟨a, u, v, rfl, hu, hv, rfl⟩ := addEdge_ok _ _ _ (cont_some _ _ h)
+        simp at he; subst he
+        simp [fN, fE, fD, hu, hv, sNode, sEdge, sGraph]
+      · next he =>
+        split at h
+        · next hk =>
+          obtain ⟨a, k, rfl, rfl⟩ := keyElem_ok _ _ _ (cont_some _ _ h)
+          simp at hk; subst hk
+          simp [fN, fE, fD, sNode, sEdge, sGraph, sKey]
+        · next hk =>
+          split at h
+          · next hg =>
+            obtain ⟨a, rfl, rfl⟩ := graphElem_ok _ _ _ (cont_some _ _ h)
+            simp at hg; subst hg
+            simp [fN, fE, fD, sNode, sEdge, sGraph]
+          · next hg =>
+            simp at h; subst h
+            simp at hn he hg
+            cases attrs <;> simp [fN, fE, fD, hn, he, hg]
+  | start name attrs =>
+    simp only [] at h
+    refine ⟨by simp, ?_⟩
+    split at h
+    · next hg =>
+      obtain ⟨a, rfl, rfl⟩ := graphElem_ok _ _ _ (cont_some _ _ h)
+      simp at hg; subst hg
+      simp [fN, fE, fD, sNode, sEdge, sGraph]
+    · next hg =>
+      split at h
+      · next hn =>
+        obtain ⟨a, i, rfl, hi, rfl⟩ := addNode_ok _ _ _ (cont_some _ _ h)
+        simp at hn; subst hn
+        simp [fN, fE, fD, hi, sNode, sEdge, sGraph]
+      · next hn =>
+        split at h
+        · next he =>
+          obtain ⟨a, u, v, rfl, hu, hv, rfl⟩ := addEdge_ok _ _ _ (cont_some _ _ h)
+          simp at he; subst he
+          simp [fN, fE, fD, hu, hv, sNode, sEdge, sGraph]
+        · next he =>
+          split at h
+          · next hk =>
+            obtain ⟨a, k, rfl, rfl⟩ := keyElem_ok _ _ _ (cont_some _ _ h)
+            simp at hk; subst hk
+            simp [fN, fE, fD, sNode, sEdge, sGraph, sKey]
+          · next hk =>
+            simp at hn he hg
+            split at h
+            · split at h
+              · cases h
+              · simp at h; subst h
+                split <;> simp [fN, fE, fD, hn, he, hg]
+            · simp at h; subst h
+              cases attrs <;> simp [fN, fE, fD, hn, he, hg]
+
+private theorem untilEof_cons (ev : Event) (rest : List Event) (h : ev ≠ .eof) :
+    untilEof (ev :: rest) = ev :: untilEof rest := by
+  cases ev <;> first | rfl | exact absurd rfl h
+
+private theorem content_gen (evs : List Event) (st0 st : RState) (h : readLoop st0 evs = .ok st) :
+    (untilEof evs).foldl fN (some (names st0.nodes)) = some (names st.nodes) ∧
+    (untilEof evs).foldl fE (some (ends st0.edges)) = some (ends st.edges) ∧
+    st.directed = (untilEof evs).foldl fD st0.directed := by
+  induction evs generalizing st0 with
+  | nil =>
+    simp only [readLoop, Except.ok.injEq] at h
+    subst h
+    simp [untilEof]
+  | cons ev rest ih =>
+    simp only [readLoop] at h
+    split at h
+    · cases h
+    · next hs =>
+      have := readStep_none _ _ hs
+      subst this
+      simp only [Except.ok.injEq] at h
+      subst h
+      simp [untilEof]
+    · next st' hs =>
+      obtain ⟨hne, h1, h2, h3⟩ := readStep_some _ _ _ hs
+      obtain ⟨i1, i2, i3⟩ := ih st' h
+      rw [untilEof_cons _ _ hne]
+      simp only [List.foldl_cons, h1, h2, ← h3]
+      exact ⟨i1, i2, i3⟩
+
+/-- **totality**: for every event list and every specs the outcome is a graph or an error -/
+theorem C19_total (sp : Specs) (evs : List Event) : (readEvents sp evs).isPanic = false := by
+  unfold readEvents
+  split
+  · rfl
+  · exact Store.newFrom_not_panic _ _ _
+
+/-- an `Ok` answer is `new_from_nodes_and_edges` of what the loop collected, under the supplied specs with the
+    declared directedness -/
+theorem C19_ok_is_newFrom (sp : Specs) (evs : List Event) (s : Store) (h : readEvents sp evs = .ok s) :
+    ∃ st, readLoop {} evs = .ok st ∧ Store.newFrom { sp with directed := st.directed } st.nodes st.edges = .ok s := by
+  unfold readEvents at h
+  split at h
+  · cases h
+  · next st hst => exact ⟨st, hst, h⟩
+
+/-- **content**: what the loop collects is exactly what the document declares - every node element and every edge
+    element, in document order, nothing skipped, nothing invented - and the last <graph> declaration decides directedness -/
+theorem C19_content (evs : List Event) (st : RState) (h : readLoop {} evs = .ok st) :
+    docNodes (untilEof evs) = some (st.nodes.map (·.name)) ∧
+    docEdges (untilEof evs) = some (st.edges.map fun e => (e.u, e.v)) ∧
+    st.directed = docDirected (untilEof evs) := by
+  rw [docNodes_eq, docEdges_eq, docDirected_eq]
+  exact content_gen evs {} st h
+
+/-- malformed node / edge / graph elements are errors, never silently accepted -/
+theorem C19_malformed_is_error (evs : List Event) (h : docNodes (untilEof evs) = none ∨ docEdges (untilEof evs) = none) :
+    ∃ k, readLoop {} evs = .error k := by
+  cases hr : readLoop {} evs with
+  | error k => exact ⟨k, rfl⟩
+  | ok st =>
+    obtain ⟨h1, h2, _⟩ := C19_content evs st hr
+    rcases h with h | h
+    · rw [h] at h1; cases h1
+    · rw [h] at h2; cases h2
+
+/-- non-vacuity: an element directly after a weight <data> start tag is not skipped (the defect repaired in the reader) -/
+example :
+    (match readLoop {} [.start sGraph (some [(sEdgeDefault, sUndirected)]), .start sEdge (some [(sSource, 100), (sTarget, 101)]),
+        .start sData (some [(sKey, sWeight)]), .empty sNode (some [(sId, 102)]), .text (some (some 5)), .endTag sData, .endTag sEdge, .eof] with
+     | .ok st => st.nodes.map (·.name) = [102] ∧ st.edges.map (·.w) = [none] ∧ st.directed = false
+     | .error _ => False) := by
+  refine (?_ : (match (Except.ok ⟨false, [⟨102, none⟩], [⟨100, 101, none, none⟩], sEdge, sWeight, false⟩ : Except ErrKind RState) with
+     | .ok st => st.nodes.map (·.name) = [102] ∧ st.edges.map (·.w) = [none] ∧ st.directed = false
+     | .error _ => False))
+  decide
+
 end Graphrs
